@@ -315,6 +315,77 @@ Definition run_C07 (op : N) (tt : N) (o : opts) (s : str) : val :=
         VL [VB (wf_C07 t o (map upper1 s));
             VL [match e with None => VNone | Some _ => VS (bs "ValueError"%bs) end; VL (map show_seq b)]]
   end.
+(* ---------------------------------------------------------------- histories: several calls in one process.
+   The model is pure, so every step is the model applied to the CURRENT value of the one persistent BioSeq object. *)
+Inductive hstep :=
+| HCall (tt : N) (o : opts) (s : str)            (* cane.translate(<text>, ...) *)
+| HCallSeq (tt : N) (o : opts)                   (* cane.translate(seq, ...): not in place, seq must stay as it is *)
+| HSet (s : str)                                 (* seq.data = <text> *)
+| HRev                                           (* seq.reverse() *)
+| HRepl (a b : byte)                             (* seq.str.replace(a, b) *)
+| HTrans (tt : N) (o : opts)                     (* seq.translate(...) in place *)
+| HBasket (tt : N) (o : opts) (ms : list (option str)).   (* BioBasket([... seq / BioSeq(<text>) ...]).translate(...); None = seq *)
+(* the loop of BioBasket.translate over members that may be the shared object (None) or fresh objects *)
+Fixpoint basket_shared (t : gtab) (o : opts) (q : bioseq) (ms : list (option str))
+  : bioseq * list (option bioseq) * option err :=
+  match ms with
+  | [] => (q, [], None)
+  | None :: r =>
+      match bioseq_translate t o q with
+      | inl q' => let '(q2, l, e) := basket_shared t o q' r in (q2, None :: l, e)
+      | inr e => (q, map (option_map bioseq_new) ms, Some e)
+      end
+  | Some s :: r =>
+      match bioseq_translate t o (bioseq_new s) with
+      | inl f => let '(q2, l, e) := basket_shared t o q r in (q2, Some f :: l, e)
+      | inr e => (q, map (option_map bioseq_new) ms, Some e)
+      end
+  end.
+Definition opts_ok (t : gtab) (o : opts) : bool :=
+  gap_sym_ok t o && gap_after_ok o && match o_gap o with None => true | Some g => negb (is_nt g) end.
+Definition show_err (e : option err) : val := match e with None => VNone | Some _ => VS (bs "ValueError"%bs) end.
+Definition key_error : val := VE (bs "KeyError"%bs).
+(* one step: new state, what the driver observes, options in the domain *)
+Definition hist_step (q : bioseq) (h : hstep) : bioseq * val * bool :=
+  match h with
+  | HCall k o s =>
+      match lookup_tab k tabs with
+      | None => (q, key_error, false)
+      | Some t => (q, VL [show_res (translate t o s); show_seq q], opts_ok t o)
+      end
+  | HCallSeq k o =>
+      match lookup_tab k tabs with
+      | None => (q, key_error, false)
+      | Some t => (q, VL [VS (b_data q); show_res (translate t o (b_data q)); show_seq q], opts_ok t o)
+      end
+  | HSet s => let q' := {| b_data := s; b_type := b_type q |} in (q', show_seq q', true)
+  | HRev => let q' := {| b_data := rev (b_data q); b_type := b_type q |} in (q', show_seq q', true)
+  | HRepl a b => let q' := {| b_data := replace1 a b (b_data q); b_type := b_type q |} in (q', show_seq q', true)
+  | HTrans k o =>
+      match lookup_tab k tabs with
+      | None => (q, key_error, false)
+      | Some t =>
+          match bioseq_translate t o q with
+          | inl q' => (q', VL [VS (b_data q); VNone; show_seq q'], opts_ok t o)
+          | inr e => (q, VL [VS (b_data q); show_err (Some e); show_seq q], opts_ok t o)
+          end
+      end
+  | HBasket k o ms =>
+      match lookup_tab k tabs with
+      | None => (q, key_error, false)
+      | Some t =>
+          let '(q', l, e) := basket_shared t o q ms in
+          (q', VL [show_err e; VL (map (fun m => match m with None => show_seq q' | Some f => show_seq f end) l)], opts_ok t o)
+      end
+  end.
+Fixpoint hist_run (q : bioseq) (hs : list hstep) : list val * bool :=
+  match hs with
+  | [] => ([], true)
+  | h :: r => let '(q', v, ok) := hist_step q h in let (vs, oks) := hist_run q' r in (v :: vs, ok && oks)
+  end.
+(* the persistent object is BioSeq(s, type='nt') *)
+Definition run_C07_hist (s : str) (hs : list hstep) : val :=
+  let (vs, ok) := hist_run (bioseq_new s) hs in VL [VB ok; VL vs].
 Definition mk_opts (complete : bool) (check_start : option bool) (check_stop : bool) (final_stop : option bool)
   (astop : byte) (gap : option byte) (gap_after : option Z) : opts :=
   {| o_complete := complete; o_check_start := check_start; o_check_stop := check_stop; o_final_stop := final_stop;
